@@ -185,7 +185,8 @@ type frec struct {
 	pendCall    *attempt
 	lastAttempt *attempt // the attempt made by this frame's previous step, if that step was a CALL-family or CREATE instruction
 	jpMark      int
-	effects     []uint64 // program effects performed by this frame itself
+	effects     []uint64         // program effects performed by this frame itself
+	touches     []common.Address // accounts addressed by frames below this one that succeeded (they share this frame's fate)
 	failedErr   error
 	// specification material (C05 C06 C08)
 	nodeIdx     int // call-tree index of the node this frame pushed (-1: none)
@@ -223,8 +224,9 @@ type frameLogger struct {
 	transfers  []transferRec
 	tIdx       int
 	allEffects []uint64
-	failedEffs map[uint64]bool // effects performed inside a frame that later failed (or inside its descendants)
-	keptEffs   map[uint64]bool // effects of frames that succeeded all the way up
+	failedEffs map[uint64]bool         // effects performed inside a frame that later failed (or inside its descendants)
+	keptEffs   map[uint64]bool         // effects of frames that succeeded all the way up
+	keptTouch  map[common.Address]bool // accounts addressed by a frame that succeeded all the way up
 	desync     string
 	journaled  map[string]bool
 	accounts   map[common.Address]bool
@@ -552,9 +554,13 @@ func (l *frameLogger) exitFrame(output []byte, gasUsed uint64, err error) {
 		}
 	} else if p := l.top(); p != nil {
 		p.effects = append(p.effects, fr.effects...) // they now share the parent's fate
+		p.touches = append(append(p.touches, fr.touches...), fr.att.to)
 	} else {
 		for _, id := range fr.effects {
 			l.keptEffs[id] = true
+		}
+		for _, a := range append(fr.touches, fr.att.to) {
+			l.keptTouch[a] = true
 		}
 	}
 }
@@ -621,6 +627,9 @@ func (l *frameLogger) CaptureState(pc uint64, op vm.OpCode, gas, cost uint64, sc
 	switch {
 	case op == vm.SSTORE:
 		id := arg(0).Uint64()
+		if id <= 3 {
+			break // a write to one of the journaled variables: not one of the tracked effects
+		}
 		fr.pendEffect = &id
 	case op == vm.RETURN || op == vm.REVERT:
 		fr.lastRet = memSlice(mem, arg(0).Uint64(), arg(1).Uint64())
@@ -759,7 +768,14 @@ func (g *fgen) genBody(depth int) []fact {
 				g.nextID++
 				out = append(out, fact{kind: "log", id: g.nextID})
 			} else {
-				out = append(out, fact{kind: "journal", slot: uint64(1 + g.r.Intn(3))})
+				f := fact{kind: "journal", slot: uint64(1 + g.r.Intn(3))}
+				if g.r.Chance(60) {
+					// write the variable first, so that what is journaled is what storage holds now - also after a nested frame
+					// wrote it and was rolled back
+					g.nextID++
+					f.id = 1 + g.nextID%250
+				}
+				out = append(out, f)
 			}
 		case k < 88 && depth < 4:
 			out = append(out, fact{kind: "sub", sub: g.genSub(depth+1, false)})
@@ -833,6 +849,11 @@ func (g *fgen) genSub(depth int, create bool) *fsub {
 				s.op, s.value = opCALL, 1
 			}
 		}
+		if g.r.Chance(30) {
+			// a precompile frame that fails for want of gas, whatever the call kind: its touch of the precompile's account (a
+			// zero-value transfer, or STATICCALL's explicit touch) has to be undone with the rest of the frame
+			s.gas = 1
+		}
 	}
 	return s
 }
@@ -848,7 +869,10 @@ func (g *fgen) compileBody(body []fact, end byte, endLen int, runtime []byte, is
 		case "log":
 			a.PushU(f.id).PushU(0).PushU(0).Op(0xa1) // LOG1 with the id as topic
 		case "journal":
-			// name "v" at 0x400, then VSVJNAL(ptr, slot, offset 0, type 7) and VVJNAL(slot, 0, 32, 7)
+			// (a store to the variable,) name "v" at 0x400, then VSVJNAL(ptr, slot, offset 0, type 7) and VVJNAL(slot, 0, 32, 7)
+			if f.id != 0 {
+				a.PushU(f.id).PushU(f.slot).Op(opSSTORE)
+			}
 			a.PushU(1).PushU(0x400).Op(opMSTORE)
 			a.Op(opPUSH1, 'v').PushU(0x420).Op(0x53) // MSTORE8
 			a.PushU(7).PushU(0).PushU(f.slot).PushU(0x400).Op(0xe1)
@@ -1024,7 +1048,7 @@ func runFrameCase(r *Rng, em *Emitter, label string, tags string) {
 	}
 
 	sdb := newStateDB()
-	lg := &frameLogger{db: sdb, failedEffs: map[uint64]bool{}, keptEffs: map[uint64]bool{}, journaled: map[string]bool{}, accounts: map[common.Address]bool{}, expAttr: map[string]map[uint64][][]byte{}}
+	lg := &frameLogger{db: sdb, failedEffs: map[uint64]bool{}, keptEffs: map[uint64]bool{}, keptTouch: map[common.Address]bool{}, journaled: map[string]bool{}, accounts: map[common.Address]bool{}, expAttr: map[string]map[uint64][][]byte{}}
 	transfer := func(db vm.StateDB, from, to common.Address, amount *big.Int) {
 		t := transferRec{from: from, to: to, amount: new(big.Int).Set(amount), bf: new(big.Int).Set(db.GetBalance(from)), bt: new(big.Int).Set(db.GetBalance(to))}
 		doTransfer(db, from, to, amount)
@@ -1079,6 +1103,17 @@ func runFrameCase(r *Rng, em *Emitter, label string, tags string) {
 		sdb.AddBalance(a, big.NewInt(5))
 	}
 	sdb.AddBalance(callerAddr, big.NewInt(1_000_000))
+	// accounts that exist but are empty (no balance, nonce or code) at the precompile addresses the programs call: the end-of-
+	// transaction clean-up removes an empty account only if the transaction touched it, and a touch made by a failed frame is undone
+	var emptyPre []common.Address
+	if r.Chance(60) {
+		for _, b := range []byte{2, 4, 6, 7, 9} {
+			a := common.BytesToAddress([]byte{b})
+			sdb.CreateAccount(a)
+			emptyPre = append(emptyPre, a)
+		}
+	}
+	sdb.Finalise(false) // the pre-state is what a previous block left: nothing of it counts as touched by this transaction
 	if env.rules.IsBerlin {
 		sdb.AddAddressToAccessList(root)
 	}
@@ -1313,7 +1348,7 @@ func runFrameCase(r *Rng, em *Emitter, label string, tags string) {
 				break
 			}
 		}
-		em.Op("C10", "S jattr", verdict)
+		em.Op("C10,C09", "S jattr", verdict)
 		if len(keys) > 0 {
 			em.Count("frame:journaled-variables-checked-for-attribution")
 		}
@@ -1359,6 +1394,23 @@ func runFrameCase(r *Rng, em *Emitter, label string, tags string) {
 		v = "leaked=" + listStr(leaked) + "_lost=" + listStr(lost)
 	}
 	em.Op("C04", "S atomic", v)
+	// C04 at the end of the transaction: an account that existed empty before, and to which no frame that succeeded all the way
+	// up was ever addressed, was touched by failed frames at most and must survive the clean-up of touched empty accounts
+	{
+		keptTo := lg.keptTouch
+		sdb.Finalise(true)
+		gone := []string{}
+		for _, a := range emptyPre {
+			if !keptTo[a] && !sdb.Exist(a) {
+				gone = append(gone, hexAddr(a))
+			}
+		}
+		va := "ok"
+		if len(gone) > 0 {
+			va = "existed_empty_before_the_transaction_and_is_gone_although_no_frame_addressed_to_it_succeeded:" + listStr(gone)
+		}
+		em.Op("C04", "S atomic-accounts", va)
+	}
 	em.Op("C07,C03", "S wf", checkTreeWF(env.evm.Tracer(), rounds, false))
 	em.Op("C05", "S jp", lg.specJoinPoints())
 	em.Op("C06", "S gas", lg.specGas())
@@ -1635,6 +1687,10 @@ func (l *frameLogger) specGas() string {
 			}
 			if ferr(err) != ferr(fr.exitErr) {
 				return fmt.Sprintf("frame_to_%s:error_%s_expected_%s", hexAddr(fr.att.to), ferr(fr.exitErr), ferr(err))
+			}
+			if err == vm.ErrOutOfGas && fr.exitErr != vm.ErrOutOfGas {
+				// "surfaces as the EVM's own out-of-gas error": callers compare error values, not texts
+				return fmt.Sprintf("frame_to_%s:out_of_gas_reported_with_a_foreign_error_value_instead_of_the_EVM's_own", hexAddr(fr.att.to))
 			}
 		}
 	}
